@@ -122,6 +122,34 @@ ImplBoundField(l, named) ==
     IN  IF sel.res # "field" THEN 0 ELSE IF IndexFix THEN es[sel.k] ELSE sel.k
 
 (***************************************************************************)
+(* Extension beyond C09: what `provide()` offers for a `Backtrace` request *)
+(* (error.md, "When and how does it derive provide()").                    *)
+(*   the detected backtrace field, if it is a Backtrace itself, is         *)
+(*   provided by reference; if the backtrace field IS the source, the      *)
+(*   request is forwarded to the source's own provide(); a separate source *)
+(*   is asked after the backtrace was provided (first provider wins).      *)
+(* Result: <<"field", i>> | <<"from_source", i>> | <<"none">> | <<"error">>*)
+(***************************************************************************)
+DocProvide(l, named) ==
+    LET b == DocBacktrace(l, named)
+        s == DocSource(l, named)
+    IN  IF b[1] = "error" \/ s[1] = "error" THEN <<"error">>
+        ELSE IF b[1] # "field" THEN <<"none">>
+        ELSE IF s = b THEN <<"from_source", b[2]>>
+        ELSE <<"field", b[2]>>
+\* Impl: render_provide_as_struct / ..._enum_variant_match_arm; the index mapping is the one of IndexFix
+ImplProvide(l, named, isVariant) ==
+    LET es == EnabledSeq(l)
+        sel == ImplSel(l, named)
+        b  == ImplPick(l, named, BtFlag, DocDefaultBacktrace)
+    IN  IF sel.panic THEN <<"panic">>
+        ELSE IF sel.res = "error" \/ b[1] = "error" THEN <<"error">>
+        ELSE IF b[1] # "field" THEN <<"none">>
+        ELSE LET bAll == IF isVariant /\ ~IndexFix THEN b[2] ELSE es[b[2]] IN
+             IF sel.res = "field" /\ sel.k = b[2] THEN <<"from_source", bAll>> ELSE <<"field", bAll>>
+Provide(l, named, isVariant) == ImplProvide(l, named, isVariant) = DocProvide(l, named)
+
+(***************************************************************************)
 (* Properties of one layout                                                *)
 (***************************************************************************)
 Select(l, named, isVariant) == ImplSource(l, named, isVariant) = DocSource(l, named)
